@@ -498,7 +498,16 @@ fn main() {
         for a in &args[2..] {
             let n: usize = a.parse().unwrap();
             let m = mutringbuf::vmem_helper::get_page_size_mul(n);
-            let l = std::panic::catch_unwind(|| { let b = mutringbuf::ConcurrentHeapRB::<u32>::default(n); let (p, _c) = b.split(); p.buf_len() }).map(|x| x as i64).unwrap_or(-1);
+            // an item type whose default is NOT the all-zero pattern: every slot of a `default(n)` buffer - the ones beyond `n` up to the
+            // page multiple included, they are ordinary ring positions - must hold the default (read back through the producer's window)
+            #[derive(Clone, Copy, PartialEq)] struct D7(u32);
+            impl Default for D7 { fn default() -> Self { D7(0x5A5A_5A5A) } }
+            let l = std::panic::catch_unwind(|| {
+                let b = mutringbuf::ConcurrentHeapRB::<D7>::default(n); let (mut p, _c) = b.split();
+                let len = p.buf_len();
+                let all = unsafe { p.get_next_slices_mut(len - 1) }.map(|s| s.iter().all(|x| *x == D7::default())).unwrap_or(false);
+                if all { len as i64 } else { -2 }
+            }).unwrap_or(-1);
             let z = std::panic::catch_unwind(|| { let b = unsafe { mutringbuf::LocalHeapRB::<u64>::new_zeroed(n) }; let (p, _c) = b.split(); p.buf_len() }).map(|x| x as i64).unwrap_or(-1);
             writeln!(out, "pagemul {} {} {} {}", n, m, l, z).unwrap();
         }
